@@ -13,7 +13,9 @@ MA = 'pyPRISM.core.MatrixArray:MatrixArray'
 IMA = 'pyPRISM.core.IdentityMatrixArray:IdentityMatrixArray'
 SP = 'pyPRISM.core.Space:Space'
 LABELS = ['A', 'B', 'C', 'D', 'E']
-RANKS_QUICK = (1, 2, 3)
+import os as _os
+_THOROUGH = _os.environ.get('PYVC_TIER') == 'thorough'      # the thorough tier adds rank / type-list size 4
+RANKS_QUICK = (1, 2, 3, 4) if _THOROUGH else (1, 2, 3)
 
 
 def mk_MA(f, name, L, n, space=None, types=None, cls=MA):
